@@ -103,8 +103,15 @@ def block_loop(ctx, name):
 
 def prior_arm(loop):
     """the `no data -> draw from the prior` arm: (If node, draw assignment)"""
+    counts = {}
+    for n in walk_own(loop):
+        if isinstance(n, ast.Assign) and len(n.targets) == 1 and isinstance(n.targets[0], ast.Name):
+            counts[n.targets[0].id] = counts.get(n.targets[0].id, 0) + 1
+    lens = {n.targets[0].id: n.value for n in loop.body if isinstance(n, ast.Assign) and len(n.targets) == 1 and isinstance(n.targets[0], ast.Name)
+            and counts.get(n.targets[0].id) == 1 and isinstance(n.value, ast.Call) and call_name(n.value) == "len"}      # n = len(rows) named first
     for st in loop.body:
-        if isinstance(st, ast.If) and "len(" in U(st.test) and U(st.test).replace(" ", "").endswith("==0"):
+        test = inline(st.test, lens) if isinstance(st, ast.If) else None
+        if isinstance(st, ast.If) and "len(" in U(test) and U(test).replace(" ", "").endswith("==0"):
             draws = [n for n in st.body if isinstance(n, ast.Assign) and isinstance(n.value, ast.Call) and attr_tail(n.value) == "normal"]
             if draws:
                 return st, draws[0]
@@ -484,20 +491,29 @@ def scalar_block(ctx, name):
     ctx.check("R4", f"{f.site()}::prior-arm", ok, f"without data: N(0, 1/sqrt({prior}))", "the no-data arm does not draw from the prior with the block's prior precision")
     # N is the number of residual rows (already part of the mean/sd forms when N is spelled len(I) in place)
     ok_N = Ndef is None or U(Ndef) == f"len({I})"
+    # the local that keeps the parameter's value from before the draw, whatever it is called: bound once in the loop to self.P[i]
+    keepers = [k for k, vs in A.items() if len(vs) == 1 and U(vs[0]) == f"self.{P}[{i}]"]
+
+    def old_role(default):
+        if default in A:
+            return default
+        if len(keepers) == 1:
+            return keepers[0]
+        return default
     if name == "_W0_step":
         resid = one(A, "resid", f)
-        old = one(A, "old_contrib", f)
+        oldname = old_role("old_contrib")
+        old = one(A, oldname, f)
         old_ok = U(old) == f"self.{P}[{i}]"
-        oldname = "old_contrib"
         renv = dict(aux)
         if old_ok:
             renv[oldname] = old
         ok_res = NN(renv).n(resid) == Nn.n(parse_expr(f"y[{I}] - self.Mu[{I}] + self.{P}[{i}]"))
         ctx.check("R3", f"{f.site()}::residual", ok_res and ok_N, f"resid == y[{I}] - Mu[{I}] + {P}[{i}], N = len({I})", f"partial residual is `{U(resid)}`, N = `{U(Ndef) if Ndef is not None else None}`")
     else:
-        old = one(A, "old_value", f)
+        oldname = old_role("old_value")
+        old = one(A, oldname, f)
         old_ok = U(old) == f"self.{P}[{i}]"
-        oldname = "old_value"
         # the two per-position residuals: named locals, or the elements of the stack written in place
         stack_elts = None
         rdef_ = A.get("resid", [])
@@ -509,7 +525,7 @@ def scalar_block(ctx, name):
             if not rs and stack_elts is not None and not isinstance(stack_elts[pos_], ast.Name):
                 rs = [data_arm(stack_elts[pos_], f"idx{kk}")]
             ctx.need(len(rs) == 1 and rs[0] is not None, f"{f.site()}: residual of position {kk} not found")
-            ok_res = NN(aux).n(rs[0]) == Nn.n(parse_expr(f"y[idx{kk}] - self.Mu[idx{kk}] + old_value"))
+            ok_res = NN({k_: v_ for k_, v_ in aux.items() if k_ != oldname}).n(rs[0]) == Nn.n(parse_expr(f"y[idx{kk}] - self.Mu[idx{kk}] + {oldname}"))
             ctx.check("R3", f"{f.site()}::residual-position-{kk}", ok_res and old_ok, f"resid{kk} == y[idx{kk}] - Mu[idx{kk}] + {P}[{i}]", f"partial residual of position {kk} is `{U(rs[0])}`")
         ok_st = (U(one(A, "resid", f)).replace(" ", "") == "np.concatenate([resid1,resid2])" or (stack_elts is not None and not any(isinstance(x, ast.Name) for x in stack_elts))) \
             and U(one(A, "idx", f)).replace(" ", "") == "np.concatenate([idx1,idx2])"
